@@ -25,6 +25,11 @@ CLAIMED["C04"] = ("property-based testing: per-kind generators with independent 
     "Trusted: the reference matchers; regex AST covers literals, ., \\d, classes, * + ? {n} {n,m}, groups, alternation at every level; glob verdicts on invalid UTF-8 lines are not asserted.",
     "DESIGN.md §4 C04")
 
+CLAIMED["C08"] = ("property-based testing: generated expectation lines vs. a reference parser of the documented BNF, and a print-back round trip compared on probe contents",
+    "Generated search over line text built from a pool of grammar-colliding pieces, every kind alias x quantifier x separator, plus well-formed regex/escaped expressions; parse result compared with an independent reference parser (R-expect); canonical rendering re-parsed and compared with the original on a probe set of line contents under both escapers.",
+    "Trusted: R-expect as the reading of the BNF. LF inside a line is outside the domain. Classification of modifier groups separated by TAB/NBSP/U+3000 is not asserted. Five print-back defects are recorded as known findings with narrow signatures.",
+    "DESIGN.md §4 C08")
+
 NOT_YET = {
 }
 
